@@ -15,12 +15,14 @@ TOTAL = "C07.scan-terminates"
 
 BOUNDS = {
     "quick": dict(
-        full=[dict(N=4, K=2, ks=tuple(range(-3, 6)), modes=hitx.MODES, grouped=(False,)),
+        full=[dict(N=4, K=2, ks=tuple(range(-1, 5)), modes=("r0", "rp", "rd"), grouped=(False,), hi=True, kinds=hitx.KINDS_HI),
+              dict(N=4, K=2, ks=tuple(range(-3, 6)), modes=hitx.MODES, grouped=(False,)),
               dict(N=3, K=3, ks=tuple(range(-1, 5)), modes=("r0", "rd"), grouped=(False,)),
               dict(N=3, K=1, ks=tuple(range(-1, 14)), modes=("rd", "rk"), grouped=(False,))],
         streams="quick", streams_lite=1, stream_ks=(-1, 0, 1, 2, 3, 4), layers=12),
     "thorough": dict(
-        full=[dict(N=5, K=2, ks=tuple(range(-3, 6)), modes=hitx.MODES, grouped=(False, True)),
+        full=[dict(N=5, K=2, ks=tuple(range(-1, 5)), modes=("r0", "rp", "rd"), grouped=(False,), hi=True, kinds=hitx.KINDS_HI),
+              dict(N=5, K=2, ks=tuple(range(-3, 6)), modes=hitx.MODES, grouped=(False, True)),
               dict(N=4, K=3, ks=tuple(range(-1, 5)), modes=hitx.MODES, grouped=(False,)),
               dict(N=4, K=2, ks=tuple(range(-1, 14)), modes=("rd", "rk"), grouped=(False,))],
         streams="thorough", streams_lite=1, stream_ks=(-1, 0, 1, 2, 3, 4, 5), layers=12),
@@ -45,7 +47,7 @@ def plan(tier, seed):
     b = BOUNDS[tier]
     units = []
     for bi, blk in enumerate(b["full"]):
-        for ci in range(len(hitx.candidates(blk["N"]))):
+        for ci in range(len(hitx.candidates(blk["N"], blk.get("kinds", hitx.KINDS)))):
             units.append((tier, "full", bi, ci))
     for u in streams.plan(b["streams"], lite=b["streams_lite"]):
         units.append((tier, "stream", u))
@@ -167,10 +169,11 @@ def run_unit(unit, rec):
     b = BOUNDS[tier]
     if kind == "full":
         blk = b["full"][unit[2]]
-        T = hitx.text(blk["N"])
-        first = hitx.candidates(blk["N"])[unit[3]]
+        kinds = blk.get("kinds", hitx.KINDS)
+        T = hitx.text_for(blk["N"], blk.get("hi", False))
+        first = hitx.candidates(blk["N"], kinds)[unit[3]]
         hits = ()
-        for hits in hitx.configs_from(first, blk["N"], blk["K"]):
+        for hits in hitx.configs_from(first, blk["N"], blk["K"], kinds=kinds):
             for mode in blk["modes"]:
                 for grouped in blk["grouped"]:
                     if grouped and len(hits) < 2:
